@@ -7,7 +7,7 @@ from vlib import Evidence
 PROP = 'C15'
 
 
-def signature(ev, exec_lines, idx):
+def signature(ev, exec_lines, idx, r=None):
     parts = ['arith', ev.get('e', '?')]
     for k in ('op', 'form', 'rk', 'lk'):
         if k in ev:
